@@ -535,7 +535,7 @@ CHECKS["C08"] = dict(
                  "an insert that chooses its slot from such a mixed view is not modelled",
                  "state caching assumes thread-local state is a function of the values read so far (deterministic code)"],
     technique="stateful exhaustive exploration of all interleavings of atomic accesses on the real code (fiber scheduler + atomic shim, state caching), exhaustive enumeration of the "
-              "relaxed-memory mixture product collected from those interleavings, plus exhaustive enumeration of scores/plies and table sizes",
+              "relaxed-memory mixture product collected from those interleavings, explicit-state search over sequential operation histories of one bucket, plus exhaustive enumeration of scores/plies and table sizes",
     level_text="Every sequentially consistent interleaving of the stated small thread programs on one bucket of the real table is explored (no preemption bound) and every probe result is "
                "checked against the set of records ever stored; index arithmetic is enumerated over every configurable size and all 2^16 key prefixes.",
     level_note="Trusted: the fiber scheduler (scheduling points only at atomic accesses; the code between them touches thread-local data only). Weak-memory behaviour: probe side by over-approximation (weak parts), insert side not covered.",
@@ -679,7 +679,8 @@ CHECKS["C10"] = dict(
                thorough="S19 at delay bound 1; stop/acknowledge protocol on all trees of <= 4 nodes (one search) and <= 3 nodes (two searches), all interleavings, under the deadline; "
                         "delay bound 2 for all control scripts (Threads 1, 2), bound 1 with Threads 3, bound 3 for S1/S2/S13, search scripts with Threads 2-4 and bound 1 for D5/D3/D8/S17, "
                         "under the deadline (unfinished bounds reported as exhaustive:false)"),
-    technique="stateless model checking of the real code: token-passing scheduler over hooked synchronisation points, iterative delay-bounded exhaustive exploration, replayable schedules",
+    technique="stateless model checking of the real code: token-passing scheduler over hooked synchronisation points, iterative delay-bounded exhaustive exploration, replayable schedules; "
+              "stateful exhaustive exploration (fiber scheduler, state caching, no preemption bound) of the stop/acknowledge protocol on the real communicator objects in every worker-tree shape",
     level_text="Every schedule of the real protocol/engine/helper threads within the delay bound is executed (in a forked child, deterministically replayable) and judged; this is exhaustive "
                "up to the bound for the stated scripts, which is the right level for lost wake-ups, deadlocks and misattributed results.",
     level_note="Trusted: the scheduler models mutex/condvar semantics faithfully (real primitives are called only when the model says they cannot block); determinism is re-checked by replaying the default schedule.",
